@@ -217,6 +217,8 @@ Proof.
       split; constructor; try assumption; destruct p; nra.
 Qed.
 
+Ltac fa := repeat first [assumption | apply Forall_nil | apply Forall_cons | (apply Forall_app; split)].
+
 Section Inv.
   Variable cfg : @settings R.
   Variable orc : @oracles R.
@@ -295,7 +297,7 @@ Section Inv.
     { destruct upd; repeat constructor. }
     destruct (newton_only cfg) eqn:EN.
     - inversion H; subst; clear H. split.
-      + repeat (apply Forall_app; split); try assumption. constructor; [exact Hcb|constructor].
+      + fa.
       + cbn [slam skap]. split; [discriminate|]. intros _ Hk. split; [apply le_vec_refl|exact Hk].
     - destruct (sub_step cfg orc kappa0 it x1 lam1 (skap s) (sncp s)) as [[s' ok] ev3] eqn:E3.
       destruct (sub_step_spec _ _ _ _ _ _ _ _ E3) as (L1 & K1 & R1 & _ & V3).
@@ -304,13 +306,20 @@ Section Inv.
         destruct Ha as [-> _]. exact L1. }
       destruct (nltb (serr s') (tol cfg)) eqn:ET; inversion H; subst; clear H.
       + split.
-        * repeat (apply Forall_app; split); try assumption; constructor; try constructor; try exact Hcb.
-          cbn. intros _. exact L1.
+        * fa. cbn. intros _. exact L1.
         * split; [reflexivity|]. split; [exact L1|]. split; [exact K1|].
           rewrite <- R1. unfold_num. apply Rltb_true. exact ET.
       + split.
-        * repeat (apply Forall_app; split); try assumption; constructor; try constructor; exact Hcb.
+        * fa.
         * split; [intros _; exact L1 | exact K1].
+  Qed.
+
+  Lemma iteration_invariants_newton it s res ev :
+    iteration cfg orc kappa0 it s = (res, ev) -> newton_only cfg = true -> exists s', res = inl s'.
+  Proof.
+    unfold iteration. intros H HN. rewrite HN in H.
+    destruct (if _ then _ else _) as [[[[x1 lam1] err1] upd] ev1] in H.
+    inversion H; subst. eexists; reflexivity.
   Qed.
 
   (* the whole loop: every event satisfies the multiplier invariant; kappa never decreases from the start;
@@ -333,7 +342,7 @@ Section Inv.
     - destruct (iteration cfg orc kappa0 it s) as [res ev1] eqn:E1. intros H HN H0.
       destruct (iteration_invariants _ _ _ _ E1 H0) as [V1 P1].
       destruct res as [s'|[[x lam] kappa]].
-      + destruct (loop cfg orc kappa0 f (S it) s') as [o' ev'] eqn:E2. inversion H; subst; clear H.
+      + destruct (loop cfg orc kappa0 f (S it) s') as [o' ev'] eqn:E2. injection H as Ho Hev. subst o ev.
         destruct P1 as [PL PK].
         destruct (IH _ _ _ _ E2 HN (or_intror (PL HN))) as (V2 & K2 & R2).
         split; [apply Forall_app; split; assumption|]. split.
@@ -345,63 +354,66 @@ Section Inv.
         split; [exact V1|]. split; [exact PK|]. split; [exact PL|]. exists it. split; [lia|exact PR].
   Qed.
 
-  (* kappa is monotone between ANY two successive observations, not only from the start: the chain along the trace *)
-  Definition ev_kappa (e : event R) : option (list R) :=
-    match e with Callback _ _ _ k => Some k | AfterSub _ _ _ k _ _ _ _ => Some k | _ => None end.
-  Fixpoint mono_from (k : list R) (ev : list (event R)) : Prop :=
-    match ev with
-    | [] => True
-    | e :: r => match ev_kappa e with
-                | Some k' => (le_vec k k' /\ nonneg k') /\ mono_from k' r
-                | None => mono_from k r
-                end
+  (* "every outer iteration the solver goes through": the (iteration index, state) pairs at which the loop body runs *)
+  Inductive visits : nat -> nat -> @st R -> nat -> @st R -> Prop :=
+  | v_here fuel it s : visits (S fuel) it s it s
+  | v_next fuel it s s' ev it2 s2 :
+      iteration cfg orc kappa0 it s = (inl s', ev) -> visits fuel (S it) s' it2 s2 -> visits (S fuel) it s it2 s2.
+
+  Lemma visits_inv fuel it s it2 s2 :
+    visits fuel it s it2 s2 -> newton_only cfg = false -> 1 <= penalty_scaling cfg ->
+    ((it = 0)%nat \/ nonneg (slam s)) -> nonneg (skap s) ->
+    ((it2 = 0)%nat \/ nonneg (slam s2)) /\ nonneg (skap s2) /\ le_vec (skap s) (skap s2).
+  Proof.
+    induction 1 as [fuel it s|fuel it s s' ev it2 s2 E V IH]; intros HN Hs H0 Hk.
+    - split; [exact H0|]. split; [exact Hk|apply le_vec_refl].
+    - destruct (iteration_invariants _ _ _ _ E H0) as [_ [PL PK]]. destruct (PK Hs Hk) as [K1 N1].
+      destruct (IH HN Hs (or_intror (PL HN)) N1) as (A & B & C).
+      split; [exact A|]. split; [exact B|]. eapply le_vec_trans; eassumption.
+  Qed.
+
+  (* after EVERY outer iteration the solver goes through: multipliers >= 0 and no penalty parameter has decreased *)
+  Theorem every_iteration fuel x lam kappa it2 s2 res ev :
+    visits fuel 0 (init_state x lam kappa) it2 s2 -> iteration cfg orc kappa0 it2 s2 = (res, ev) ->
+    newton_only cfg = false -> 1 <= penalty_scaling cfg -> nonneg kappa ->
+    match res with
+    | inl s' => nonneg (slam s') /\ le_vec (skap s2) (skap s') /\ le_vec kappa (skap s')
+    | inr (_, lam', kappa') => nonneg lam' /\ le_vec (skap s2) kappa' /\ le_vec kappa kappa'
     end.
-  Fixpoint last_kappa (k : list R) (ev : list (event R)) : list R :=
-    match ev with [] => k | e :: r => last_kappa (match ev_kappa e with Some k' => k' | None => k end) r end.
-
-  Lemma mono_from_app k a b : mono_from k a -> mono_from (last_kappa k a) b -> mono_from k (a ++ b).
   Proof.
-    revert k. induction a as [|e a IH]; intros k; cbn [app mono_from last_kappa]; [tauto|].
-    destruct (ev_kappa e); [intros [H1 H2] H3; split; [exact H1|apply IH; assumption] | apply IH].
+    intros V E HN Hs Hk.
+    destruct (visits_inv _ _ _ _ _ V HN Hs (or_introl eq_refl) Hk) as (A & B & C). cbn [init_state skap] in C.
+    destruct (iteration_invariants _ _ _ _ E A) as [_ P].
+    destruct res as [s'|[[x' lam'] kappa']].
+    - destruct P as [PL PK]. destruct (PK Hs B) as [K1 _].
+      split; [exact (PL HN)|]. split; [exact K1|eapply le_vec_trans; eassumption].
+    - destruct P as (_ & PL & PK & _). destruct (PK Hs B) as [K1 _].
+      split; [exact PL|]. split; [exact K1|eapply le_vec_trans; eassumption].
   Qed.
 
-  Lemma no_kappa_mono k a : List.Forall (fun e => ev_kappa e = None) a -> mono_from k a /\ last_kappa k a = k.
+  (* the loop only ever returns from a visited iteration *)
+  Theorem loop_returns_from_visit fuel : forall it s x lam kappa ev,
+    loop cfg orc kappa0 fuel it s = (Returned x lam kappa, ev) ->
+    exists it2 s2 ev2, visits fuel it s it2 s2 /\ iteration cfg orc kappa0 it2 s2 = (inr (x, lam, kappa), ev2).
   Proof.
-    induction 1 as [|e a He _ IH]; cbn [mono_from last_kappa]; [tauto|]. rewrite He. exact IH.
+    induction fuel as [|f IH]; intros it s x lam kappa ev; cbn [loop]; [intros H; inversion H|].
+    destruct (iteration cfg orc kappa0 it s) as [res ev1] eqn:E1.
+    destruct res as [s'|[[x' lam'] kappa']].
+    - destruct (loop cfg orc kappa0 f (S it) s') as [o' ev'] eqn:E2. intros H. injection H as Ho Hev. subst o'.
+      destruct (IH _ _ _ _ _ _ E2) as (it2 & s2 & ev2 & V & E).
+      exists it2, s2, ev2. split; [eapply v_next; eassumption|exact E].
+    - intros H. injection H as <- <- <- <-. exists it, s, ev1. split; [constructor|exact E1].
   Qed.
 
-  Theorem iteration_kappa_chain it s res ev :
-    iteration cfg orc kappa0 it s = (res, ev) -> 1 <= penalty_scaling cfg -> nonneg (skap s) ->
-    mono_from (skap s) ev /\ last_kappa (skap s) ev = match res with inl s' => skap s' | inr (_, _, k) => k end.
+  (* use_newton_only: the sub-step never runs, the loop never returns normally *)
+  Theorem newton_only_never_returns fuel : forall it s o ev,
+    newton_only cfg = true -> loop cfg orc kappa0 fuel it s = (o, ev) ->
+    match o with Returned _ _ _ => False | NotConverged _ _ _ => True end.
   Proof.
-    unfold iteration. intros H Hs Hk.
-    set (second := orb (andb (use_second_order cfg) (Nat.leb (n_low_order cfg) it)) (newton_only cfg)) in H.
-    destruct (if second then _ else _) as [[[[x1 lam1] err1] upd] ev1] eqn:E1 in H.
-    assert (Hev1 : List.Forall (fun e => ev_kappa e = None) ev1).
-    { destruct second.
-      - destruct (lin_update orc it (sx s) (slam s) (skap s)) as [[dx dl] failed].
-        destruct (linesearch orc kappa0 10 0 it (sx s) (slam s) dx dl (skap s) (serr s) failed) as [r evl] eqn:EL.
-        inversion E1; subst. constructor; [reflexivity|].
-        apply linesearch_events in EL. eapply Forall_impl; [|exact EL]. intros [] Ha; try contradiction; reflexivity.
-      - inversion E1; constructor. }
-    assert (Hev2 : List.Forall (fun e => ev_kappa e = None) (if upd then [@PrecondUpdate R it] else [])).
-    { destruct upd; repeat constructor. }
-    assert (H12 : List.Forall (fun e => ev_kappa e = None) (ev1 ++ (if upd then [@PrecondUpdate R it] else []))).
-    { apply Forall_app; split; assumption. }
-    destruct (no_kappa_mono (skap s) _ H12) as [M12 L12].
-    assert (Hrefl : le_vec (skap s) (skap s) /\ nonneg (skap s)) by (split; [apply le_vec_refl|exact Hk]).
-    destruct (newton_only cfg) eqn:EN.
-    - inversion H; subst; clear H. cbn [app mono_from last_kappa ev_kappa skap].
-      split; [split; [exact Hrefl|exact M12] | exact L12].
-    - unfold sub_step in H. destruct (sub_solve orc it x1 lam1 (skap s)) as [x' ok'].
-      cbv zeta in H. cbn [serr sx slam skap] in H.
-      match type of H with context [scale_where ?a ?b ?c] => pose proof (scale_where_mono a b c Hs Hk) as [SM SN] end.
-      match type of H with (if ?t then _ else _) = _ => destruct t end; inversion H; subst; clear H;
-        rewrite !app_assoc; cbn [app mono_from last_kappa ev_kappa skap];
-        (split; [split; [exact Hrefl|] |]).
-      all: rewrite <- ?app_assoc.
-      all: try (apply mono_from_app; [exact M12|]; rewrite L12; cbn [mono_from ev_kappa]).
-      all: try (rewrite last_kappa_app_tail).
-      all: idtac.
-  Abort.
+    induction fuel as [|f IH]; intros it s o ev HN; cbn [loop]; [intros H; inversion H; exact I|].
+    destruct (iteration cfg orc kappa0 it s) as [res ev1] eqn:E1.
+    destruct (iteration_invariants_newton _ _ _ _ E1 HN) as [s' ->].
+    destruct (loop cfg orc kappa0 f (S it) s') as [o' ev'] eqn:E2. intros H. injection H as Ho Hev. subst o.
+    eapply IH; eassumption.
+  Qed.
 End Inv.
